@@ -13,6 +13,8 @@ The hypothesis `StateInUnit s` is needed: `aggregate_bounds` clamps, so a stored
 import LnnVerif.Lemmas.Basic
 import Mathlib.Algebra.Order.Field.Rat
 import Mathlib.Tactic.NormNum
+import LnnVerif.Lemmas.PendLemmas
+import LnnVerif.Lemmas.FolMono
 
 set_option linter.unusedSectionVars false
 
@@ -103,5 +105,72 @@ example : (run c05KB [Op.call (Call.down 2 none)] c05S 1) = ⟨3/4, 1⟩ := by
 theorem C05_needs_range :
     ¬ ((⟨2, 3⟩ : Bounds ℚ).lo ≤ (aggregate .both (⟨2, 3⟩ : Bounds ℚ) ⟨0, 1⟩).1.lo) := by
   simp [aggregate, clamp01]
+
+/-! ### grounding propagation through a partially quantified formula
+
+The driver runs the first-order calls through the pending-grounding layer (`Model/FolPend.lean`).
+The layer never touches a stored row, and without partially quantified operands it is the plain run. -/
+
+section pend
+
+variable {ι : Type} [DecidableEq ι] {α : Type} [Field α] [LinearOrder α]
+
+/-- the step that precedes the `downward` of a partially quantified formula keeps every stored
+row of every formula exactly as it was: nothing is loosened, no grounding disappears -/
+theorem C05_propagate_keeps (kb : FKB ι α) (i : ι) (p : PState ι α) (k : ι) (g : Gr) (r : Row α)
+    (h : Table.find? (p.st.get k) g = some r) :
+    Table.find? ((preDown kb i p).st.get k) g = some r :=
+  preDown_keeps kb i p k g r h
+
+/-- the layered calls compute what the plain calls compute (on the state after that step) -/
+theorem C05_layer_calls (kb : FKB ι α) (i : ι) (idx : Option Nat) (p : PState ι α) :
+    (pUp kb i p).1.st = (fUp kb i p.st).1 ∧
+      (pDown kb i idx p).1.st = (fDown kb i idx (preDown kb i p).st).1 :=
+  ⟨rfl, rfl⟩
+
+/-- no formula with a partially quantified operand: the layered run IS the plain run -/
+theorem C05_layer_is_plain {kb : FKB ι α} (h : NoQuantParent kb) (cs : List (FCall ι))
+    (s : FState ι α) :
+    runPCalls kb cs ⟨s, []⟩ = (⟨(runFCalls kb cs s).1, []⟩, (runFCalls kb cs s).2) :=
+  runPCalls_of_noParent h cs s
+
+end pend
+
+/-! ### first-order tables and quantifiers: every call only tightens
+
+For every first-order knowledge base whose world defaults are bounds in [0,1] — no hypothesis on
+node kinds, weights, bias, alpha, variable maps — and every state with bounds in [0,1]: after any
+node-level call (any `index`), any sequence of calls (a pass over any schedule), any `infer` with
+any step limit, with or without a query, including the grounding propagation through partially
+quantified sub-formulae, every grounding that was stored is still stored, its lower bound is not
+lower, its upper bound not higher, its data (leaf) untouched, and all bounds are again in [0,1]. -/
+
+section fol
+
+variable {ι : Type} [DecidableEq ι] {α : Type} [Field α] [LinearOrder α] [IsStrictOrderedRing α]
+
+theorem C05_fol_call (kb : FKB ι α) (hw : WorldsInUnit kb) (c : FCall ι) (p : PState ι α)
+    (hs : FState.InUnit p.st) :
+    FState.Tightens p.st (runPCall kb c p).1.st ∧ FState.InUnit (runPCall kb c p).1.st :=
+  runPCall_tightens kb hw c p hs
+
+theorem C05_fol_calls (kb : FKB ι α) (hw : WorldsInUnit kb) (cs : List (FCall ι)) (p : PState ι α)
+    (hs : FState.InUnit p.st) :
+    FState.Tightens p.st (runPCalls kb cs p).1.st ∧ FState.InUnit (runPCalls kb cs p).1.st :=
+  runPCalls_tightens kb hw cs p hs
+
+theorem C05_fol_infer (kb : FKB ι α) (hw : WorldsInUnit kb) (nodes : List ι) (up down : List (FCall ι))
+    (eps : α) (query : Option ι) (fuel : Nat) (p : PState ι α) (hs : FState.InUnit p.st) :
+    FState.Tightens p.st (pInferQ kb nodes up down eps query fuel p).state.st ∧
+      FState.InUnit (pInferQ kb nodes up down eps query fuel p).state.st :=
+  pInferQ_tightens kb hw nodes up down eps query fuel p hs
+
+/-- the plain calls (what the layer runs underneath) -/
+theorem C05_fol_plain (kb : FKB ι α) (hw : WorldsInUnit kb) (cs : List (FCall ι)) (s : FState ι α)
+    (hs : FState.InUnit s) :
+    FState.Tightens s (runFCalls kb cs s).1 ∧ FState.InUnit (runFCalls kb cs s).1 :=
+  runFCalls_tightens kb hw cs s hs
+
+end fol
 
 end LNN
